@@ -4,7 +4,7 @@ CONSTANTS
   SHAPES <- Q_SHAPES
   RANKS = {1, 3}
   EPSEXP = {8, 4}
-  GUESS = {"none", "fresh", "exact1", "exact2"}
+  GUESS = {"none", "fresh", "zero", "exact1", "exact2"}
   SEEDS = {1}
   BACKENDS = {"cpp"}
   PREC = {"none", "c", "r"}
